@@ -292,7 +292,7 @@ theorem measure_spaces (n : Nat) : measure [.text (List.replicate n spaceG)] = n
 
 /-- The panel after `pad_panel_line_to_width`. -/
 theorem padPanel_width (pw : Nat) (line tail out : List Item) (fill : Fill)
-    (hok : Generated.truncStopsAfterCut = true ∨ (NoWide line ∧ NoWide tail))
+    (hok : Generated.wrapTruncStopsAfterCut = true ∨ (NoWide line ∧ NoWide tail))
     (h : padPanel pw line tail fill = .ok out) :
     measure out ≤ pw ∧ (fill = .spaces → measure out = pw) := by
   unfold padPanel at h
@@ -303,7 +303,7 @@ theorem padPanel_width (pw : Nat) (line tail out : List Item) (fill : Fill)
     have hlw : measure l ≤ pw ∧ (pw < measure line → measure l = pw) ∧ (¬ pw < measure line → l = line) := by
       split at hl
       · rename_i hlong
-        have := truncateImplF_width Generated.truncStopsAfterCut line pw tail l hok hl
+        have := truncateImplF_width Generated.wrapTruncStopsAfterCut line pw tail l hok hl
         exact ⟨this.1, this.2, fun h => absurd hlong h⟩
       · rename_i hshort
         cases hl
